@@ -120,6 +120,17 @@ def setup():
     if not reg:
         return 0
     _ensure_lock()
+    # warm the four Kani target dirs (compiles lightning + deps under Kani's toolchain once each)
+    njobs = int(os.environ.get('VERIF_KANI_JOBS', '4'))
+    jobs = [Job(k, ['c14_layout_constants'], 1500) for k in range(njobs)]
+    for j in jobs:
+        j.start()
+    for j in jobs:
+        j.join()
+    bad = [j for j in jobs if 'VERIFICATION:- SUCCESSFUL' not in j.log]
+    if bad:
+        print('kani warm-up failed:\n' + bad[0].log[-2000:])
+        return 1
     return 0
 
 
